@@ -21,7 +21,7 @@ import numpy as np
 from harness import common, gen
 from harness.props import c03
 
-MODULES = ['CirqVerif.Props.C08', 'CirqVerif.Props.C08b']
+MODULES = ['CirqVerif.Props.C08', 'CirqVerif.Props.C08b', 'NonVacuity.ComplexModel']
 
 
 def mat(out):
